@@ -255,10 +255,15 @@ def register_dataclass_type_with_jax_tree_util(data_class):
     """
     def flatten(d):
         # (jax.util.unzip2 was removed from JAX's public namespace.)
-        keys, values = zip(*sorted(d.__dict__.items()))
-        return values, keys
+        items = sorted(d.__dict__.items())
+        # Plain Python ints (dimensions such as num_dim) are static metadata, not array leaves.
+        static = tuple((k, v) for k, v in items if type(v) is int)
+        keys, values = zip(*[(k, v) for k, v in items if type(v) is not int])
+        return values, (keys, static)
 
-    unflatten = lambda keys, values: data_class(**dict(zip(keys, values)))
+    unflatten = lambda aux, values: data_class(
+        **dict(zip(aux[0], values)), **dict(aux[1])
+    )
     try:
         jax.tree_util.register_pytree_node(
             nodetype=data_class, flatten_func=flatten, unflatten_func=unflatten
